@@ -7,6 +7,7 @@
 -/
 import MosVerif.Lemmas.SystemInv
 import MosVerif.Lemmas.SystemConcrete
+import MosVerif.Lemmas.TranslatedCacheKey
 import MosVerif.Model.Listeners
 import MosVerif.Generated.Facts
 namespace MosVerif.C04
@@ -88,11 +89,11 @@ example :
     let b : SystemConcrete.Req := ⟨⟨[1, 65], 3, 1⟩, []⟩      -- "A" in class CH
     SystemConcrete.keyOf a ≠ SystemConcrete.keyOf b := by decide
 
-/-- tie (pinned source facts, shared with C07): the key the composed model numbers is the one `cacheKey` writes —
-    name, terminator, class, type, group label — and both `Store` and `Get` build it from the lower-cased question
-    and the client's group. -/
+/-- tie: the key the composed model numbers is the one `cacheKey` writes — name, terminator, class, type, group
+    label: `cacheKey_translated` (Lemmas/TranslatedCacheKey, the model proved equal to the translation of the
+    current source) — and, pinned source facts shared with C07, both `Store` and `Get` build it from the lower-cased
+    question and the client's group. -/
 theorem pins :
-    Facts.ck_body = "{ b := pool.GetBuf(len(q.Name) + 1 + 4 + len(mark)) off := copy(b, q.Name) b[off] = 0 off++ binary.BigEndian.PutUint16(b[off:], uint16(q.Class)) off += 2 binary.BigEndian.PutUint16(b[off:], uint16(q.Type)) off += 2 copy(b[off:], []byte(mark)) return b }" ∧
     Facts.ck_lowerCall = "dnsmsg.ToLowerName(q.Name)" ∧
     Facts.ck_storeKey = "k := cacheKey(q, mark)" ∧
     Facts.ck_getKey = "key := cacheKey(q, ipMark)" ∧
